@@ -18,6 +18,15 @@ pub(crate) fn parse_ifdata(
 ) -> Result<(Option<GenericIfData>, bool), ParserError> {
     let mut result = None;
     let mut valid = false;
+    // comments behind /begin IF_DATA are not part of the data: the first real token decides if there is
+    // any content and if it starts with the tag of a taggedunion
+    while let Some(A2lToken {
+        ttype: A2lTokenType::Comment,
+        ..
+    }) = parser.peek_token()
+    {
+        parser.get_token(context)?;
+    }
     // is there any content in the IF_DATA?
     if let Some(token) = parser.peek_token() {
         if token.ttype != A2lTokenType::End {
